@@ -183,6 +183,47 @@ def g_arrays_sharing(rng):
     return {'a': a, 'b': b, 'list': [a, b, c, l1], 'chinfo': ch, 'tuple': (l1, l2, l1)}
 
 
+# ---- boundary: EMPTY legs (no block at all: block_number == 0, slices == [0], charges of shape (0, qnumber)); they come out
+# of LegCharge.project / Array.iproject with an all-False mask
+
+def empty_leg(rng, chinfo, qconj=1):
+    full = rand_leg(rng, chinfo, nblocks=2, qconj=qconj, style='raw')
+    _, _, e = full.project(np.zeros(full.ind_len, bool))
+    assert e.block_number == 0 and e.ind_len == 0
+    e.test_sanity()
+    return e
+
+
+@gen('legcharge_empty', variants=3)
+def g_leg_empty(rng, variant=0):
+    return empty_leg(rng, mk_chinfo([1, 0, 4][variant % 3]), qconj=[1, -1][variant % 2])
+
+
+@gen('array_empty_leg', variants=3)
+def g_array_empty_leg(rng, variant=0):
+    import tenpy.linalg.np_conserved as npc
+    ch = mk_chinfo(2)
+    l1 = rand_leg(rng, ch, nblocks=3)
+    if variant == 0:      # created with an empty leg
+        return npc.zeros([l1, empty_leg(rng, ch, -1)], labels=['a', 'b'])
+    a = npc.Array.from_func(lambda shape: rng.normal(size=shape), [l1, l1.conj(), l1], labels=['a', 'b', 'c'])
+    if variant == 1:      # projected to nothing
+        a.iproject(np.zeros(l1.ind_len, bool), 'b')
+    else:                 # an empty leg and a projected (non-empty, fewer blocks) leg
+        mask = np.zeros(l1.ind_len, bool)
+        mask[0] = True
+        a.iproject([np.zeros(l1.ind_len, bool), mask], ['a', 'c'])
+    a.test_sanity()
+    return a
+
+
+@gen('legpipe_empty_leg')
+def g_pipe_empty_leg(rng):
+    from tenpy.linalg.charges import LegPipe
+    ch = mk_chinfo(1)
+    return LegPipe([rand_leg(rng, ch, nblocks=2), empty_leg(rng, ch)], qconj=-1)
+
+
 # ---------------------------------------------------------------- sites
 
 SITE_SPECS = [
@@ -344,6 +385,119 @@ def g_mpo_grids(rng):
     s = SpinHalfSite('Sz')
     grid = [[s.Id, s.Sp, s.Sm, s.Sz], [None, None, None, s.Sm], [None, None, None, s.Sp], [None, None, None, s.Id]]
     return MPO.from_grids([s] * 3, [grid] * 3, 'infinite', 0, 3, max_range=1)
+
+
+# ---- attributes whose loader has a fallback default (legacy files): instances whose value DIFFERS from that default, so that
+# a value which is not written / not read back cannot be masked by the default
+
+@gen('mps_options', variants=5)
+def g_mps_options(rng, variant=0):
+    from tenpy.networks.mps import MPS
+    from tenpy.networks.site import SpinHalfSite
+    s = SpinHalfSite('Sz')
+    if variant == 0:       # unit_cell_width != len(sites)
+        psi = MPS.from_product_state([s] * 4, ['up', 'down'] * 2, bc='infinite', unit_cell_width=2)
+    elif variant == 1:     # grouped sites
+        psi = MPS.from_singlets(s, 4, [(0, 1), (2, 3)], bc='finite')
+        psi.group_sites(2)
+    elif variant == 2:     # non-canonical / mixed forms, norm != 1, _transfermatrix_keep != default
+        psi = MPS.from_singlets(s, 4, [(0, 3), (1, 2)], bc='infinite')
+        psi.form = [None, (1., 0.), (0.5, 0.5), (0., 1.)]
+        psi._transfermatrix_keep = 3
+        psi.norm = 0.25
+        return psi         # (test_sanity of mixed forms is fine; canonical_form() would change it)
+    elif variant == 3:     # complex tensors, singular values on a cut of dimension > 1
+        psi = MPS.from_singlets(s, 4, [(0, 2), (1, 3)], bc='finite')
+        for i in range(psi.L):
+            psi.set_B(i, psi.get_B(i) * (1. + 0.j), 'B')
+        psi.dtype = np.dtype(complex)
+    else:                  # segment with non-trivial segment_boundaries
+        psi0 = MPS.from_singlets(s, 6, [(0, 3), (1, 2), (4, 5)], bc='finite')
+        psi = psi0.extract_segment(1, 4)
+    psi.test_sanity()
+    return psi
+
+
+@gen('mpo_options', variants=5)
+def g_mpo_options(rng, variant=0):
+    m = mk_model('tenpy.models.tf_ising.TFIChain', 1)       # finite, L = 4
+    H = m.H_MPO
+    if variant == 0:       # explicit_plus_hc = True
+        from tenpy.models.xxz_chain import XXZChain2
+        H = XXZChain2(dict(L=4, Jxx=1., Jz=0.5, hz=0.1, bc_MPS='finite', explicit_plus_hc=True)).H_MPO
+        assert H.explicit_plus_hc
+    elif variant == 1:     # grouped
+        H = H.copy()
+        H.group_sites(2)
+        assert H.grouped == 2
+    elif variant == 2:     # time evolution operator: max_range inf, IdL/IdR lists, complex
+        H = H.make_U_II(0.05j)
+    elif variant == 3:     # infinite MPO of a ladder: unit_cell_width != len(sites)
+        H = mk_model('tenpy.models.tf_ising.TFIModel', 1).H_MPO
+        assert H.unit_cell_width != len(H.sites)
+    else:                  # sorted legs
+        from tenpy.models.tf_ising import TFIChain
+        H = TFIChain(dict(L=3, bc_MPS='infinite', J=1., g=0.7, sort_mpo_legs=True)).H_MPO
+    H.test_sanity()
+    return H
+
+
+@gen('model_grouped', variants=3)
+def g_model_grouped(rng, variant=0):
+    """group_sites replaces the lattice by lat.with_grouped_sites(...): a TrivialLattice whose mps_unit_cell_width is NOT Ls[0]"""
+    if variant == 0:
+        m = g_mpo_model(rng)
+    elif variant == 1:
+        m = g_nn_model(rng)
+    else:
+        from tenpy.models.model import MPOModel
+        m0 = mk_model('tenpy.models.tf_ising.TFIModel', 1)      # infinite ladder
+        m = MPOModel(m0.lat, m0.H_MPO)
+    m.group_sites(2)
+    m.test_sanity()
+    return m
+
+
+@gen('lattice_grouped', variants=2)
+def g_lattice_grouped(rng, variant=0):
+    from tenpy.networks.site import group_sites
+    lat = mk_lattice(['Chain', 'Ladder'][variant % 2], 1)
+    res = lat.with_grouped_sites(group_sites(lat.mps_sites(), 2, charges='same'))
+    res.test_sanity()
+    return res
+
+
+@gen('model_options', variants=2)
+def g_model_options(rng, variant=0):
+    from tenpy.models.tf_ising import TFIChain
+    from tenpy.models.xxz_chain import XXZChain2
+    if variant == 0:
+        m = XXZChain2(dict(L=4, Jxx=1., Jz=0.5, hz=0.1, bc_MPS='finite', explicit_plus_hc=True, sort_mpo_legs=True))
+    else:
+        m = TFIChain(dict(L=2, bc_MPS='infinite', J=1.5, g=0.25, conserve='parity', sort_charge=True))
+    m.test_sanity()
+    return m
+
+
+@gen('simulation_results', variants=2)
+def g_simulation_results(rng, variant=0):
+    """what a simulation stores: results dict with simulation_parameters, psi, measurements, resume_data (environments, psi shared)"""
+    import logging
+    import tenpy
+    logging.disable(logging.CRITICAL)
+    p = dict(simulation_class_name='GroundStateSearch', model_class=['TFIChain', 'XXZChain'][variant % 2],
+             model_params=[{'L': 4, 'bc_MPS': 'finite', 'g': 0.5}, {'L': 4, 'bc_MPS': 'finite', 'Jz': 0.5}][variant % 2],
+             algorithm_class=['TwoSiteDMRGEngine', 'SingleSiteDMRGEngine'][variant % 2],
+             algorithm_params={'trunc_params': {'chi_max': 6, 'svd_min': 1.e-10}, 'max_sweeps': 2, 'mixer': True},
+             initial_state_params={'method': 'lat_product_state', 'product_state': [['up'], ['down']]},
+             connect_measurements=[['tenpy.simulations.measurement', 'm_onsite_expectation_value', {'opname': ['Sigmaz', 'Sz'][variant % 2]}]],
+             save_resume_data=True, log_params={'to_stdout': None, 'to_file': None})
+    try:
+        res = tenpy.run_simulation(**p)
+    finally:
+        logging.disable(logging.NOTSET)
+    res['version_info'] = {k: v for k, v in res.get('version_info', {}).items() if k != 'cwd'} if isinstance(res.get('version_info'), dict) else None
+    return res
 
 
 # ---------------------------------------------------------------- lattices
@@ -660,7 +814,7 @@ def g_truncerr(rng, variant=0):
     return TruncationError(1.e-7, 1. - 2.e-7) + TruncationError(3.e-9, 1. - 6.e-9)
 
 
-@gen('config', variants=3)
+@gen('config', variants=6)
 def g_config(rng, variant=0):
     from tenpy.tools.params import Config
     opts = {'chi_max': 100, 'svd_min': 1.e-10, 'name': 'x', 'sub': {'a': 1, 'b': [1, 2.5, None]}, 'flag': True,
@@ -672,6 +826,20 @@ def g_config(rng, variant=0):
     if variant == 2:
         c = Config({'outer': c, 'other': [c, None]}, 'Nested')
         c.touch('other')
+    if variant == 3:       # the config on a reference cycle through its own options
+        c.options['sub']['b'].append(c)
+        c.options['me'] = c
+    if variant == 4:       # ONE sub-config shared between two parents (saved under both)
+        sub = c.subconfig('sub')
+        sub.get('a', 0)
+        other = Config({'sub': sub, 'k': 2}, 'Other')
+        return [c, other, {'parents': (other, c), 'sub': sub}]
+    if variant == 5:       # everything used / nothing left / a deleted and a later added key
+        c = Config({'a': 1, 'b': 2, 'c': 3}, 'Used')
+        c['a'], c['b']
+        del c['c']
+        c['late'] = 4
+        return [c, Config({}, 'Empty')]
     return c
 
 
@@ -753,3 +921,14 @@ def g_everything(rng):
     data = {'SpinHalfSite': s, 'Sz': s.Sz, 'psi': psi, 'H_mpo': M.H_MPO, 'model': M, 'sites_again': [s, M.lat.unit_cell[0]],
             'leg': s.leg, 'psi_leg': psi.get_B(0).get_leg('p')}
     return data
+
+
+@gen('config_copy_shared_unused')
+def g_config_copy(rng):
+    """Config.copy(share_unused=True): the copy and the original share the set `unused` (reading a key through one marks it as used for both)"""
+    from tenpy.tools.params import Config
+    c = Config({'a': 1, 'b': {'x': 2}, 'c': 3}, 'Orig')
+    c2 = c.copy()
+    c2['a']
+    assert c2.unused is c.unused
+    return {'orig': c, 'copy': c2}
